@@ -153,6 +153,7 @@ func init() {
 			{Name: "records", TShards: 8, Run: c03Records},
 			{Name: "files", TShards: 4, Run: c03Files},
 			{Name: "flags", Run: c03Flags},
+			{Name: "long", TShards: 4, Run: c03Long},
 		},
 	})
 }
@@ -330,5 +331,71 @@ func checkFlagValue(k *K, f int) {
 			}
 			k.Count("flag_assertions", 1)
 		}
+	}
+}
+
+// c03Long: records and header lines longer than the usual I/O buffers.
+func c03Long(c *Ctx) {
+	n := c.N(120, 3000)
+	for i := 0; i < n; i++ {
+		c.Case(int64(i), func(k *K) {
+			r := k.Rand()
+			var text bytes.Buffer
+			var want, wantRecs []item
+			nh := r.IntN(3)
+			for j := 0; j < nh; j++ {
+				h := genSamHeader(r)
+				if r.IntN(3) == 0 {
+					h = "@CO\t" + string(longText(r, longSize(r), noCRLF))
+				}
+				text.WriteString(h + "\n")
+				want = append(want, item{Key: fmt.Sprintf("HDR{%q}", h)})
+			}
+			nr := 1 + r.IntN(3)
+			long := r.IntN(nr)
+			for j := 0; j < nr; j++ {
+				s := genSAM(r)
+				if j == long {
+					l := longSize(r)
+					switch r.IntN(4) {
+					case 0:
+						s.Seq, s.Qual = string(longText(r, l, nil)), string(longText(r, l, nil))
+					case 1:
+						s.Qname = "q" + string(longText(r, l, nil))
+					case 2:
+						if s.Tags == nil {
+							s.Tags = map[string]any{}
+						}
+						s.Tags["ZZ"] = string(longText(r, l, nil))
+					default:
+						if s.Tags == nil {
+							s.Tags = map[string]any{}
+						}
+						h := make([]byte, l/2)
+						for q := range h {
+							h[q] = byte(r.IntN(256))
+						}
+						s.Tags["XH"] = h
+					}
+				}
+				line := samWrite(k, s)
+				text.Write(line)
+				want = append(want, item{Key: samKey(s)})
+				wantRecs = append(wantRecs, item{Key: samKey(s)})
+				k.Count("long_line_bytes_max", 0)
+			}
+			k.Input("text", func() string { return describeText(text.Bytes()) })
+			got, over := collect(codecByName("samh").seq(bytes.NewReader(text.Bytes())), len(want)+5)
+			if over || !sameTrace(got, want) {
+				k.Failf("long-readerheader", "file with a long line: ReaderHeader items differ:\n got  %.1500s\n want %.1500s", traceString(got), traceString(want))
+			}
+			got, over = collect(codecByName("sam").seq(bytes.NewReader(text.Bytes())), len(want)+5)
+			if over || !sameTrace(got, wantRecs) {
+				k.Failf("long-reader", "file with a long line: Reader items differ:\n got  %.1500s\n want %.1500s", traceString(got), traceString(wantRecs))
+			}
+			k.Count("long_line_files", 1)
+			k.Count("records_roundtripped", int64(nr))
+			k.Nontrivial(text.Bytes())
+		})
 	}
 }
